@@ -227,8 +227,20 @@ func mkEvent(o op, rev int64) *clientv3.Event {
 	return &clientv3.Event{Type: mvccpb.PUT, Kv: &mvccpb.KeyValue{Key: []byte(o.k), Value: []byte(o.v), ModRevision: rev, Version: 1}}
 }
 
+// The channel is closed only when the scripted etcd ends the stream. On
+// cancellation of the watch context (Subscriber.Close, cluster.reload) the pump just
+// stops: go-zero's watchStream returns through ctx.Done()/done in that case, and not
+// closing keeps the harness free of watches re-established for closed subscribers.
 func (f *fakeEtcd) pump(ctx context.Context, st *fstream) {
-	defer close(st.ch)
+	closeCh := false
+	defer func() {
+		f.mu.Lock()
+		st.dead = true
+		f.mu.Unlock()
+		if closeCh {
+			close(st.ch)
+		}
+	}()
 	for {
 		f.mu.Lock()
 		var it *qitem
@@ -247,6 +259,7 @@ func (f *fakeEtcd) pump(ctx context.Context, st *fstream) {
 			}
 		}
 		if it.closeOnly {
+			closeCh = true
 			return
 		}
 		select {
@@ -258,6 +271,7 @@ func (f *fakeEtcd) pump(ctx context.Context, st *fstream) {
 			close(it.done)
 		}
 		if it.terminal {
+			closeCh = true
 			return
 		}
 	}
